@@ -136,8 +136,8 @@ impl Check for C17 {
     fn assumptions(&self) -> Vec<String> { vec!["holdings are mapped to Assets by the harness as (master fingerprint, full path) or (master fingerprint, parent path) key sources".into()] }
     fn lanes(&self, tier: Tier) -> Vec<(&'static str, usize, usize)> {
         match tier {
-            Tier::Quick => vec![("plan", 8000, 400)],
-            Tier::Thorough => vec![("plan", 500_000, 500)],
+            Tier::Quick => vec![("plan", 96_000, 400)],
+            Tier::Thorough => vec![("plan", 1_920_000, 500)],
         }
     }
     fn run_case(&self, _lane: &str, src: &mut Src, rep: &mut Report) -> Result<(), Failure> {
@@ -222,6 +222,20 @@ impl Check for C17 {
         // one key reachable through several key sources: the announced signature size is that
         // of whichever source the planner meets first; keep the flavour consistent per key
         // (by point: the same point written as compressed and as x-only key signs the same way)
+        // a parent-path source also covers siblings that have an entry of their own: the planner
+        // may meet either source first, so the whole sibling group signs the same way
+        let prefix_of = |k: &str| -> Option<String> { if k.contains("pub") { k.rfind('/').map(|c| k[..c].to_string()) } else { None } };
+        for i in 0..hk.len() {
+            if let Some(pi) = prefix_of(&hk[i].0) {
+                let group: Vec<usize> = (0..hk.len()).filter(|j| prefix_of(&hk[*j].0).as_deref() == Some(pi.as_str())).collect();
+                if group.iter().any(|j| parent[*j]) {
+                    let first = hk[group[0]].1.taproot.sighash_default;
+                    for j in group {
+                        hk[j].1.taproot.sighash_default = first;
+                    }
+                }
+            }
+        }
         let point = |k: &str| key_bytes(k, ctx).ok().and_then(|b| keys::xonly_of(&b));
         for i in 0..hk.len() {
             for j in 0..i {
@@ -257,7 +271,7 @@ impl Check for C17 {
         };
         let h = Holdings { keys: hk, preimages: pre, abs_max, rel_max };
         let mall = src.chance(1, 3);
-        rep.desc = format!("{} | holdings keys={:?} preimages={} abs_max={:?} rel_max={:?} | {}", text, h.keys.iter().map(|(k, c)| format!("{}..:{}{}{}", &k[..k.len().min(12)], if c.ecdsa { "e" } else { "" }, if c.taproot.key_spend { "k" } else { "" }, match c.taproot.script_spend { TaprootAvailableLeaves::Any => "A", TaprootAvailableLeaves::None => "N", _ => "L" })).collect::<Vec<_>>(), h.preimages.len(), h.abs_max, h.rel_max, if mall { "mall" } else { "nonmall" });
+        rep.desc = format!("{} | holdings keys={:?} preimages={} abs_max={:?} rel_max={:?} | {}", text, h.keys.iter().map(|(k, c)| format!("{}..{}:{}{}{}{}", &k[..k.len().min(12)], &k[k.len().saturating_sub(4)..], if c.ecdsa { "e" } else { "" }, if c.taproot.key_spend { "k" } else { "" }, match c.taproot.script_spend { TaprootAvailableLeaves::Any => "A", TaprootAvailableLeaves::None => "N", _ => "L" }, if c.taproot.sighash_default { "d" } else { "x" })).collect::<Vec<_>>(), h.preimages.len(), h.abs_max, h.rel_max, if mall { "mall" } else { "nonmall" });
         let assets = to_assets(&h, &parent)?;
         // keys that cannot use SIGHASH_DEFAULT really sign with an explicit SIGHASH_ALL
         let mut tap_all: BTreeSet<[u8; 32]> = BTreeSet::new();
